@@ -36,7 +36,9 @@ fn typ_name(t: IceCandidateType) -> &'static str {
 /// `Near(k)`: a USERNAME that is close to, but not, `<ufrag>:<anything>` (see `near_user`)
 #[derive(Clone, Copy, Debug, PartialEq)] pub enum User { None, Wrong, Ok, Near(u8) }
 /// `NearKey(k)`: a full, well-placed 20-byte HMAC under a key close to, but not equivalent to, the local password (see `near_key`)
-#[derive(Clone, Copy, Debug, PartialEq)] pub enum Mi { None, Corrupt, WrongKey, Ok, RemoteKey, NearKey(u8) }
+#[derive(Clone, Copy, Debug, PartialEq)] pub enum Mi { None, Corrupt, WrongKey, Ok, RemoteKey, NearKey(u8),
+    /// the right 20-byte HMAC with byte `k` (0..20) changed: the class "full-length tag, wrong value"
+    WrongByte(u8) }
 pub const NEAR_USERS: u8 = 10;
 pub const NEAR_KEYS: u8 = 12;
 impl User {
@@ -44,8 +46,8 @@ impl User {
     pub fn from_code(c: usize) -> Option<User> { Some(match c { 0 => User::None, 1 => User::Wrong, 2 => User::Ok, k if k < 3 + NEAR_USERS as usize => User::Near(k as u8 - 3), _ => return None }) }
 }
 impl Mi {
-    pub fn code(self) -> u8 { match self { Mi::None => 0, Mi::Corrupt => 1, Mi::WrongKey => 2, Mi::Ok => 3, Mi::RemoteKey => 4, Mi::NearKey(k) => 5 + k } }
-    pub fn from_code(c: usize) -> Option<Mi> { Some(match c { 0 => Mi::None, 1 => Mi::Corrupt, 2 => Mi::WrongKey, 3 => Mi::Ok, 4 => Mi::RemoteKey, k if k < 5 + NEAR_KEYS as usize => Mi::NearKey(k as u8 - 5), _ => return None }) }
+    pub fn code(self) -> u8 { match self { Mi::None => 0, Mi::Corrupt => 1, Mi::WrongKey => 2, Mi::Ok => 3, Mi::RemoteKey => 4, Mi::NearKey(k) => 5 + k, Mi::WrongByte(k) => 5 + NEAR_KEYS + k } }
+    pub fn from_code(c: usize) -> Option<Mi> { Some(match c { 0 => Mi::None, 1 => Mi::Corrupt, 2 => Mi::WrongKey, 3 => Mi::Ok, 4 => Mi::RemoteKey, k if k < 5 + NEAR_KEYS as usize => Mi::NearKey(k as u8 - 5), k if k < 25 + NEAR_KEYS as usize => Mi::WrongByte(k as u8 - 5 - NEAR_KEYS), _ => return None }) }
 }
 fn flip_case(s: &str) -> String { s.chars().map(|c| if c.is_ascii_lowercase() { c.to_ascii_uppercase() } else if c.is_ascii_uppercase() { c.to_ascii_lowercase() } else { c }).collect() }
 /// the class "any key other than the local password": keys an implementation slip would plausibly also accept.
@@ -174,6 +176,8 @@ impl Env {
             let turn_server = sp();
             let tsock = Arc::new(UdpSocket::bind("127.0.0.1:0").await.unwrap());
             let turn_client = Arc::new(TurnClient::verif_new_udp(tsock, turn_server.local_addr().unwrap()));
+            // channels bound for peers 0 and 1: their datagrams travel as ChannelData, those of peers 2 and 3 as Data indications
+            for i in 0..2u16 { turn_client.verif_add_channel(peers[i as usize].local_addr().unwrap(), 0x4000 + i).await; }
             let (shared_addr, shared, shared_reg) = rustrtc::verif_hooks::ice::shared::acquire_udp("127.0.0.1:0".parse().unwrap(), "verifmuxufrag".into()).await.unwrap();
             (locals, peers, tcp_server, tcp_client, tcp_local, tcp_peer, turn_client, turn_server, shared, shared_addr, shared_reg, Arc::new(listener))
         });
@@ -209,8 +213,9 @@ impl Env {
                 if acc.len() >= 2 { Some(acc[2..].to_vec()) } else { None }
             }
             Sk::Turn => { let mut last = None; while let Ok((n, _)) = self.turn_server.recv_from(&mut buf) { last = Some(buf[..n].to_vec()); }
-                // unwrap the Send indication
-                last.and_then(|b| StunMessage::decode(&b).ok()).and_then(|d| if d.class == StunClass::Indication && d.method == StunMethod::Send { d.data } else { None }) }
+                // unwrap the ChannelData message / the Send indication
+                last.and_then(|b| if b.len() >= 4 && b[0] >> 6 == 1 { let l = u16::from_be_bytes([b[2], b[3]]) as usize; b.get(4..4 + l).map(|x| x.to_vec()) }
+                    else { StunMessage::decode(&b).ok().and_then(|d| if d.class == StunClass::Indication && d.method == StunMethod::Send { d.data } else { None }) }) }
         }
     }
 }
@@ -317,7 +322,7 @@ pub const LAYOUTS: [(&str, bool, Option<bool>); 28] = [
     ("username-non-utf8-peer-part", true, None), ("attributes-after-mi", true, Some(true)), ("truncated-final-attribute-after-mi", true, None),
     ("oversized-attribute-before-mi", false, Some(false)), ("mi-inside-another-attribute", false, Some(false)),
     ("nonzero-padding-bytes", true, Some(true)), ("missing-padding-misaligned-mi", false, Some(false)), ("full-mi-wrong-key", false, Some(false)),
-    ("header-length-mismatch", true, None), ("two-usernames-foreign-first", true, None), ("mi-len-0-no-username", false, Some(false)),
+    ("header-length-mismatch", true, None), ("two-usernames-foreign-first", false, Some(false)), ("mi-len-0-no-username", false, Some(false)),
     ("genuine", true, Some(true)),
 ];
 
@@ -392,7 +397,8 @@ fn packet_bytes(b: &Built, p: &Pkt, tx_rng: &mut Rng) -> (Vec<u8>, Option<bool>)
             if *uc { attrs.push(StunAttribute::UseCandidate); }
             let m = StunMessage { class: StunClass::Request, method: METHODS[(*method % 3) as usize], transaction_id: tx, attributes: attrs };
             let mut bytes = match mi { Mi::None => m.encode(None, true), Mi::WrongKey => m.encode(Some(b"not-the-local-password"), true), Mi::RemoteKey => m.encode(Some(REMOTE_PWD.as_bytes()), true), Mi::NearKey(k) => m.encode(Some(&near_key(*k, &b.ufrag, &b.pwd)), true), _ => m.encode(Some(b.pwd.as_bytes()), true) }.unwrap();
-            if *mi == Mi::Corrupt { let n = bytes.len(); bytes[n - 8 - 5] ^= 0x01; }   // inside the HMAC value (FINGERPRINT left stale on purpose)
+            if *mi == Mi::Corrupt { let n = bytes.len(); bytes[n - 8 - 5] ^= 0x01; }
+            if let Mi::WrongByte(k) = mi { let n = bytes.len(); bytes[n - 28 + (*k % 20) as usize] ^= 1 << (*k % 8); }   // inside the HMAC value (FINGERPRINT left stale on purpose)
             (bytes, Some(*user == User::Ok && *mi == Mi::Ok))
         }
         What::Resp { tx, error, method } => {
@@ -410,7 +416,7 @@ fn packet_bytes(b: &Built, p: &Pkt, tx_rng: &mut Rng) -> (Vec<u8>, Option<bool>)
 }
 
 fn variant(user: User, mi: Mi) -> &'static str {
-    match (user, mi) { (User::None, Mi::None) => "no-credentials", (User::Ok, Mi::NearKey(_)) => "integrity-under-near-miss-key", (User::Ok, _) => "bad-integrity",
+    match (user, mi) { (User::None, Mi::None) => "no-credentials", (User::Ok, Mi::NearKey(_)) => "integrity-under-near-miss-key", (User::Ok, Mi::WrongByte(_)) => "full-length-integrity-with-one-wrong-byte", (User::Ok, _) => "bad-integrity",
         (User::Near(_), Mi::Ok) => "near-miss-username", (_, Mi::Ok) => "wrong-username", _ => "wrong-username-bad-integrity" }
 }
 
@@ -497,7 +503,12 @@ fn is_noise(c: &Case, p: &Pkt) -> bool {
 /// the source of `p` is no remote candidate of the case, is never the source of a request that carries
 /// credentials (which would make it a peer-reflexive remote) and is not the latching alias of a remote
 fn stranger_source(c: &Case, p: &Pkt) -> bool {
-    if p.sock == Sk::Tcp { return false; }                       // the TCP peer is the remote candidate of bit 8 / of the accepted stream
+    let authentic = |q: &Pkt| match &q.what { What::Req { user, mi, .. } => (*user == User::Ok && *mi == Mi::Ok) || !c.webrtc, What::Raw { layout, .. } => LAYOUTS[*layout as usize].1 || !c.webrtc, _ => false };
+    if p.sock == Sk::Tcp {
+        // the peer of the accepted TCP stream can be the selected remote only if it is the remote candidate of bit 8 or
+        // becomes one through an authenticated request on that stream
+        return c.remotes & 8 == 0 && !c.pkts.iter().any(|q| q.sock == Sk::Tcp && authentic(q));
+    }
     let k = p.src % 4;
     if k < 3 && c.remotes & (1 << k) != 0 { return false; }
     if k == 3 && c.latching { return false; }                    // same port as peer 0 on another IP: the latching branch may move the pair there
@@ -543,7 +554,14 @@ fn exec_built(env: &mut Env, run: &mut Run, c: &Case, mut b: Built, emit: bool, 
         let before = outs.last().unwrap().clone();
         let fwd0 = *b.cap.0.lock();
         let t = b.transport.clone(); let w = env.wrapper(p.sock); let rt = &env.rt; let pk = bytes.clone();
-        let r = crate::catch(std::panic::AssertUnwindSafe(move || rt.block_on(t.verif_handle_packet(&pk, src, w))));
+        let r = if p.sock == Sk::Turn {
+            // the TURN socket kind enters where the TURN read loop enters: `handle_turn_packet`, with the datagram as the
+            // server relays it — ChannelData on the channel bound for that peer, or a Data indication
+            let wrapped: Vec<u8> = if p.src % 4 < 2 { let ch = 0x4000u16 + (p.src % 4) as u16; let mut m = vec![(ch >> 8) as u8, ch as u8, (pk.len() >> 8) as u8, pk.len() as u8]; m.extend_from_slice(&pk); m }
+                else { StunMessage { class: StunClass::Indication, method: StunMethod::Data, transaction_id: [5; 12], attributes: vec![StunAttribute::XorPeerAddress(src), StunAttribute::Data(pk.clone())] }.encode(None, true).unwrap() };
+            let client = env.turn_client.clone(); let relayed = env.relayed;
+            crate::catch(std::panic::AssertUnwindSafe(move || rt.block_on(t.verif_handle_turn_packet(&wrapped, &client, relayed))))
+        } else { crate::catch(std::panic::AssertUnwindSafe(move || rt.block_on(t.verif_handle_packet(&pk, src, w)))) };
         let reply = env.reply(p.sock, p.src);
         let mut delivered = None;
         for (tx, rx) in b.pend.iter_mut() { if rx.try_recv().is_ok() { delivered = Some(*tx); } }
@@ -554,7 +572,12 @@ fn exec_built(env: &mut Env, run: &mut Run, c: &Case, mut b: Built, emit: bool, 
         // ---- the property's oracle, on the implementation only
         let role = if c.controlling { "controlling" } else { "controlled" };
         let is_req = matches!(p.what, What::Req { .. } | What::Raw { .. });
-        if let (true, Some(false), false) = (is_req, authentic, c.webrtc) { run.count("unauthenticated_request_in_rtp_mode_not_judged"); }
+        if let (true, Some(false), false) = (is_req, authentic, c.webrtc) {
+            // outside WebRTC mode unauthenticated probes are answered and learnt from by design, but since the fix "a STUN nomination
+            // (USE-CANDIDATE) is honoured only when … in every transport mode" they never nominate (accepted TCP stream excepted)
+            if p.sock != Sk::Tcp && (after.nom != before.nom || after.state != before.state) {
+                run.fail(&format!("unauth:any-mode:{role}:{}", if after.nom != before.nom { "nomination-completed" } else { "state-changed" }), &c.text(), &format!("{} -> {}", before.text(), after.text())); }
+            run.count("unauthenticated_request_in_rtp_mode_judged_for_nomination_only"); }
         if let (true, Some(false), true) = (is_req, authentic, c.webrtc) {
             if after.selsock != before.selsock { let vv: String = match &p.what { What::Req { user, mi, .. } => variant(*user, *mi).to_string(), What::Raw { layout, .. } => format!("malformed-{}", LAYOUTS[*layout as usize].0), _ => unreachable!() };
                 run.fail(&format!("unauth:{vv}:{role}:selected-socket-changed"), &c.text(), &format!("{} -> {}", before.text(), after.text())); }
@@ -626,7 +649,7 @@ fn reply_oracle(run: &mut Run, c: &Case, rep: &[u8], req: &[u8], src: SocketAddr
 fn gen_what(rng: &mut Rng, pending: u8) -> What {
     match rng.below(20) {
         0..=10 => What::Req { user: { let k = rng.below(NEAR_USERS as u64) as u8; *rng.pick(&[User::None, User::Wrong, User::Ok, User::Ok, User::Ok, User::Near(k)]) },
-            mi: { let k = rng.below(NEAR_KEYS as u64) as u8; *rng.pick(&[Mi::None, Mi::Corrupt, Mi::WrongKey, Mi::Ok, Mi::Ok, Mi::Ok, Mi::RemoteKey, Mi::NearKey(k)]) }, uc: rng.chance(1, 2), method: if rng.chance(1, 8) { rng.below(3) as u8 } else { 0 } },
+            mi: { let k = rng.below(NEAR_KEYS as u64) as u8; let j = rng.below(20) as u8; *rng.pick(&[Mi::None, Mi::Corrupt, Mi::WrongKey, Mi::Ok, Mi::Ok, Mi::Ok, Mi::RemoteKey, Mi::NearKey(k), Mi::WrongByte(j)]) }, uc: rng.chance(1, 2), method: if rng.chance(1, 8) { rng.below(3) as u8 } else { 0 } },
         11..=14 => What::Resp { tx: if rng.chance(2, 3) && pending > 0 { rng.below(pending as u64) as u8 } else { 200 }, error: rng.chance(1, 3), method: if rng.chance(1, 6) { 1 } else { 0 } },
         15 => if rng.chance(1, 2) { What::Ind } else { What::Raw { layout: rng.below(LAYOUTS.len() as u64) as u8, uc: rng.chance(1, 2) } },
         16 => { let n = rng.range(1, 40) as usize; let mut g = rng.bytes(n); g[0] = rng.below(2) as u8; What::Garbage(g) }
@@ -754,7 +777,7 @@ fn listen_loop_cases(env: &mut Env, run: &mut Run) {
         let role = if controlling { "controlling" } else { "controlled" };
         let case = format!("tcp-accept role={role} state={} sends={sends} genuine-before={with_genuine_before}", STATE_NAMES[state as usize]);
         let t = transport.clone();
-        let (before, after, streams_before, streams_after, keepalive_to) = env.rt.block_on(async {
+        let (before, after, streams_before, streams_after, keepalive_to, nudged) = env.rt.block_on(async {
             let l = Arc::new(TcpListener::bind("127.0.0.1:0").await.unwrap());
             let la = l.local_addr().unwrap();
             let lc = IceCandidate::host_tcp(la, 1, TcpType::Passive);
@@ -784,6 +807,15 @@ fn listen_loop_cases(env: &mut Env, run: &mut Run) {
                 tokio::time::sleep(Duration::from_millis(20)).await;
                 let after = observe(&t, "-".into());
                 let streams_after = t.verif_tcp_streams();
+                // `nudge_passive_tcp_nomination` (called by PeerConnection whenever ICE is Connected / Completed): with only the
+                // stranger's connection in the table it must not complete nomination or publish that connection
+                let mut nudged = None;
+                if !with_genuine_before {
+                    let b4 = observe(&t, "-".into());
+                    t.nudge_passive_tcp_nomination();
+                    tokio::time::sleep(Duration::from_millis(25)).await;
+                    nudged = Some((b4, observe(&t, "-".into())));
+                }
                 // where does the keepalive for the selected (genuine) peer go now?
                 let mut keepalive_to = "-";
                 if with_genuine_before && matches!(STATES[state as usize], IceTransportState::Connected | IceTransportState::Disconnected) {
@@ -794,13 +826,19 @@ fn listen_loop_cases(env: &mut Env, run: &mut Run) {
                     keepalive_to = if xx > 0 { "unauthenticated-connection" } else if gx > 0 { "genuine-connection" } else { "nowhere" };
                 }
                 drop(genuine);
-                (before, after, streams_before, streams_after, keepalive_to)
+                (before, after, streams_before, streams_after, keepalive_to, nudged)
             };
             tokio::select! { biased; r = work => r, _ = t2.verif_run_tcp_listen_loop(l.clone()) => unreachable!("listen loop ended") }
         });
         let field = if after.state != before.state { "state-changed" } else if after.nom != before.nom { "nomination-completed" } else if after.sel != before.sel { "selected-pair-changed" }
             else if after.rems != before.rems { "candidate-added" } else if after.selsock != before.selsock { "selected-socket-changed" } else { "" };
         if !field.is_empty() { run.fail(&format!("unauth:tcp-accept:{role}:{field}"), &case, &format!("{} -> {}", before.text(), after.text())); }
+        if let Some((b4, aft)) = nudged {
+            let f = if aft.state != b4.state { "state-changed" } else if aft.nom != b4.nom { "nomination-completed" } else if aft.sel != b4.sel { "selected-pair-changed" }
+                else if aft.rems != b4.rems { "candidate-added" } else if aft.selsock != b4.selsock { "selected-socket-changed" } else { "" };
+            if !f.is_empty() { run.fail(&format!("unauth:tcp-accept-then-nudge:{role}:{f}"), &case, &format!("{} -> {}", b4.text(), aft.text())); }
+            run.count("tcp_accept_nudge_cases");
+        }
         if streams_after == streams_before { run.count("tcp_accept_not_registered"); } else { run.count("observation_unauthenticated_tcp_connection_registered_before_authentication"); }
         if with_genuine_before && streams_after != streams_before { run.fail("preauth:tcp-stream-table:listen-loop:genuine-stream-replaced-by-unauthenticated-connection", &case, &format!("{streams_before:?} -> {streams_after:?}")); }
         if keepalive_to == "unauthenticated-connection" { run.fail("preauth:tcp-stream-table:listen-loop:keepalive-for-the-selected-peer-sent-to-unauthenticated-connection", &case, ""); }
@@ -908,6 +946,7 @@ pub fn run(args: &Args) {
         let remotes = if sock == Sk::Tcp { 8 } else { 1 };
         for k in 0..NEAR_KEYS { cases.push(Case { remotes, rp: uc, pkts: vec![Pkt { sock, src: 0, what: What::Req { user: User::Ok, mi: Mi::NearKey(k), uc, method: 0 } }], ..base(controlling, state) }); }
         for k in 0..NEAR_USERS { cases.push(Case { remotes, rp: uc, pkts: vec![Pkt { sock, src: 0, what: What::Req { user: User::Near(k), mi: Mi::Ok, uc, method: 0 } }], ..base(controlling, state) }); }
+        if state != 1 { for k in 0..20u8 { cases.push(Case { remotes, rp: uc, pkts: vec![Pkt { sock, src: 0, what: What::Req { user: User::Ok, mi: Mi::WrongByte(k), uc, method: 0 } }], ..base(controlling, state) }); } }
     }}}}
     run.count_n("exhaustive_request_matrix", cases.len() as u64);
     // malformed / unusual credential layouts x ±USE-CANDIDATE x roles x states x known/unknown source x {UDP, accepted TCP stream}
@@ -924,13 +963,15 @@ pub fn run(args: &Args) {
             Some(What::Req { user: User::Ok, mi: Mi::RemoteKey, uc: false, method: 0 }), Some(What::Req { user: User::Ok, mi: Mi::Ok, uc: false, method: 0 }),
             Some(What::Raw { layout: 0, uc: true }), Some(What::Resp { tx: 0, error: false, method: 0 }), Some(What::Resp { tx: 200, error: false, method: 0 }),
             Some(What::Ind), Some(What::Garbage(vec![0, 1, 2, 3])), Some(What::Empty), Some(What::Data(vec![0x80, 1, 2, 3]))];
-        for w in whats { for src in [0u8, 1] {
+        for w in whats { for src in [0u8, 1] { for sock in [Sk::Udp0, Sk::Turn, Sk::Tcp] {
+            if sock != Sk::Udp0 && (tmo == 1 || !webrtc) { continue; }
+            if sock == Sk::Tcp && src == 1 { continue; }
             let mut pkts = vec![];
-            if let Some(w) = w.clone() { pkts.push(Pkt { sock: Sk::Udp0, src, what: w }); }
+            if let Some(w) = w.clone() { pkts.push(Pkt { sock, src, what: w }); }
             pkts.push(Pkt { sock: Sk::Udp0, src: 0, what: What::Tick });
             pkts.push(Pkt { sock: Sk::Udp0, src: 0, what: What::Tick });
-            cases.push(Case { webrtc, tmo, rp, locals: 0b00001, remotes: 1, selected: sel, pkts, ..base(controlling, state) });
-        }}
+            cases.push(Case { webrtc, tmo, rp, locals: match sock { Sk::Turn => 0b01001, Sk::Tcp => 0b00101, _ => 0b00001 }, remotes: 1, selected: sel, pkts, ..base(controlling, state) });
+        }}}
     }}}}}}
     run.count_n("exhaustive_liveness_tick_matrix", (cases.len() - n0) as u64);
     // responses: solicited / unsolicited / replayed, success / error, all roles and states
